@@ -11,7 +11,7 @@ import types
 import z3
 
 from .core import (Ctx, Undecided, Sym, SInt, SBool, SStr, SSet, SSeq, Lit, IntLit, Val, Rep, Pct, SChar, QChar,
-                   SetLit, SeqLit, MSet, SSetStr, mkstr, has_sym, is_sym)
+                   SetLit, SeqLit, MSet, SSetStr, SSetOfSeq, mkstr, has_sym, is_sym)
 
 # builtins that only look at the *structure* of their (concrete) container arguments and never
 # at the elements: safe to run natively even if elements are symbolic.
@@ -199,7 +199,11 @@ class Models(object):
             if op is ast.NotEq:
                 r = self.str_eq(a, b)
                 return SBool(z3.Not(r.e)) if isinstance(r, SBool) else (not r)
-            raise Undecided("ordering of symbolic strings")
+            # code-point lexicographic order (z3 str.< / str.<= ; same order as Python's str comparison)
+            za = mkstr(a).z3() if isinstance(a, SStr) else z3.StringVal(a)
+            zb = mkstr(b).z3() if isinstance(b, SStr) else z3.StringVal(b)
+            self.used("string-order(z3 str.<, code-point lexicographic)")
+            return SBool({ast.Lt: za < zb, ast.LtE: za <= zb, ast.Gt: zb < za, ast.GtE: zb <= za}[op])
         # mixed types: int vs str etc.
         if op is ast.Eq:
             if _kind(a) != _kind(b):
@@ -234,6 +238,16 @@ class Models(object):
         ctx = self.ctx
         if isinstance(container, SSet):
             return SBool(container.member(_int(item)))
+        if isinstance(container, MSet) and isinstance(item, (str, SStr)) and not container.ranges:
+            # string members: concrete ones of the real set + the symbolic ones added on this path
+            disj = []
+            for x in sorted((m for m in set.__iter__(container) if isinstance(m, str))) + list(container.sitems):
+                r = self.interp.compare(ast.Eq, item, x)
+                if isinstance(r, SBool):
+                    disj.append(r.e)
+                elif r:
+                    return True
+            return SBool(z3.Or(*disj)) if disj else False
         if isinstance(container, MSet) and (container.ranges or isinstance(item, Sym)):
             return SBool(container.member(_int(item)))
         if isinstance(container, SSeq):
@@ -709,8 +723,55 @@ class Models(object):
             raise Undecided("encode of symbolic string")
         raise Undecided("str.%s on symbolic operands" % name)
 
+    def _strip_refine(self, atoms, idx, a, chars, where):
+        """refinement fork for strip()/rstrip()/lstrip() with ONE stripped character ch at a hole that may
+        begin/end with it: either the hole does not (class refined), or one ch is peeled off the hole
+        (u = ch ++ u' / u' ++ ch) and stripping continues; after one peel the path is truncated (the rest is assumed not to begin/end with ch).
+        For an escaped hole pct(u) this needs ch to be a character the quoter leaves alone and that
+        cannot be part of an escape ('%', hex digits): then pct(u) begins/ends with ch <=> u does."""
+        if len(chars) != 1:
+            return None
+        ch = chars
+        if where == "first" and isinstance(a, Val):
+            return None                      # handled by the older lstrip rule below
+        u = a.u if isinstance(a, Pct) else a
+        if isinstance(a, Pct) and (ch in reserved_chars() or ch == "%" or ch in "0123456789abcdefABCDEF"):
+            return None
+        if getattr(self, "_peel_budget", 1) <= 0:
+            return None
+        self.used("tmpl-strip-refinement-fork")
+        lit = z3.StringVal(ch)
+        cond = z3.SuffixOf(lit, u.v) if where == "last" else z3.PrefixOf(lit, u.v)
+        wrap = (lambda v: Pct(v)) if isinstance(a, Pct) else (lambda v: v)
+        if self.ctx.branch_light(cond, "hole-%s-is-%r" % (where, ch)):
+            v2 = self.ctx.fresh_str("rest")
+            self.ctx.assume(u.v == (z3.Concat(v2, lit) if where == "last" else z3.Concat(lit, v2)), light=True)
+            self._peel_budget = getattr(self, "_peel_budget", 1) - 1
+            if where == "last":
+                nu = Val(v2, excl=u.excl, nonempty=False, excl_first=u.excl_first, tag=u.tag)
+            else:
+                nu = Val(v2, excl=u.excl, nonempty=False, excl_last=u.excl_last, tag=u.tag)
+            if self._peel_budget == 0:
+                self.ctx.assume(z3.Not(z3.SuffixOf(lit, v2) if where == "last" else z3.PrefixOf(lit, v2)), light=True)
+                self.ctx.truncated += 1
+                if where == "last":
+                    nu = Val(v2, excl=u.excl, nonempty=False, excl_first=u.excl_first, excl_last=frozenset({ch}), tag=u.tag)
+                else:
+                    nu = Val(v2, excl=u.excl, nonempty=False, excl_first=frozenset({ch}), excl_last=u.excl_last, tag=u.tag)
+            atoms[idx] = wrap(nu)
+            return "continue"
+        if where == "last":
+            nu = Val(u.v, excl=u.excl, nonempty=u.nonempty, excl_first=u.excl_first, excl_last=u.excl_last | {ch}, tag=u.tag)
+        else:
+            nu = Val(u.v, excl=u.excl, nonempty=u.nonempty, excl_first=u.excl_first | {ch}, excl_last=u.excl_last, tag=u.tag)
+        atoms[idx] = wrap(nu)
+        if not nu.nonempty:
+            return None                      # an empty hole exposes its neighbour: leave that to the rules below
+        return "break"
+
     def str_strip(self, s, which, chars):
         self._lstrip_budget = 3
+        self._peel_budget = 1
         if chars is None:
             chars = _WS
         atoms = list(s.atoms)
@@ -733,19 +794,36 @@ class Models(object):
                     nonempty_ = a.nonempty if isinstance(a, Val) else a.u.nonempty
                     if nonempty_ and not any(allowed(c, "last") for c in chars):
                         break
-                    if isinstance(a, Pct):
+                    r = self._strip_refine(atoms, -1, a, chars, "last")
+                    if r == "continue":
+                        continue
+                    if r == "break":
+                        break
+                    a = atoms[-1]
+                    allowed = _allowed_fn(a)
+                    nonempty_ = a.nonempty if isinstance(a, Val) else a.u.nonempty
+                    if isinstance(a, Pct) and any(allowed(c, "last") for c in chars):
                         raise Undecided("strip: escaped hole may end with a stripped character")
                     if not any(allowed(c, "last") for c in chars):
                         # hole may be empty: if so the previous atom is exposed
-                        if a.nonempty or len(atoms) == 1:
+                        if nonempty_ or len(atoms) == 1:
                             break
                         prev = atoms[-2]
                         if isinstance(prev, Lit) and prev.s and prev.s[-1] not in chars:
                             break           # even if the hole is empty, the exposed literal does not end with a stripped char
-                        raise Undecided("strip past a possibly-empty hole")
+                        # fork on emptiness: an empty hole exposes its left neighbour
+                        uu = a.u if isinstance(a, Pct) else a
+                        self.used("tmpl-strip-empty-hole-fork")
+                        if self.ctx.branch_light(z3.Length(uu.v) == 0, "hole-empty"):
+                            atoms.pop()
+                            continue
+                        nu = Val(uu.v, excl=uu.excl, nonempty=True, excl_first=uu.excl_first, excl_last=uu.excl_last, tag=uu.tag)
+                        atoms[-1] = Pct(nu) if isinstance(a, Pct) else nu
+                        break
                     raise Undecided("strip: hole may end with a stripped character")
                 raise Undecided("strip of %r" % (a,))
         if which in ("lstrip", "strip"):
+            self._peel_budget = 1
             while atoms:
                 a = atoms[0]
                 if isinstance(a, Lit):
@@ -760,6 +838,12 @@ class Models(object):
                     nonempty_ = a.nonempty if isinstance(a, Val) else a.u.nonempty
                     if nonempty_ and not any(allowed(c, "first") for c in chars):
                         break
+                    if isinstance(a, Pct):
+                        r = self._strip_refine(atoms, 0, a, chars, "first")
+                        if r == "continue":
+                            continue
+                        if r == "break":
+                            break
                     if isinstance(a, Val) and len(chars) == 1 and getattr(self, "_lstrip_budget", 3) > 0:
                         # fork with a refinement: the hole starts with the stripped character (peel it off,
                         # bounded number of times) or it does not
@@ -782,6 +866,18 @@ class Models(object):
                         else:
                             atoms[0] = Val(a.v, excl=a.excl, nonempty=a.nonempty, excl_first=a.excl_first | {ch}, excl_last=a.excl_last, tag=a.tag)
                             break
+                    a = atoms[0]
+                    if isinstance(a, (Val, Pct)) and not any(_allowed_fn(a)(c, "first") for c in chars):
+                        uu = a.u if isinstance(a, Pct) else a
+                        if uu.nonempty:
+                            break
+                        self.used("tmpl-strip-empty-hole-fork")
+                        if self.ctx.branch_light(z3.Length(uu.v) == 0, "hole-empty"):
+                            atoms.pop(0)
+                            continue
+                        nu = Val(uu.v, excl=uu.excl, nonempty=True, excl_first=uu.excl_first, excl_last=uu.excl_last, tag=uu.tag)
+                        atoms[0] = Pct(nu) if isinstance(a, Pct) else nu
+                        break
                     raise Undecided("lstrip: hole may start with a stripped character")
                 if isinstance(a, IntLit):
                     if any(c in "0123456789-" for c in chars):
@@ -1132,6 +1228,9 @@ class Models(object):
 
     def container_method(self, slf, name, args, kwargs):
         """Methods of concrete containers whose arguments are symbolic."""
+        if isinstance(slf, list) and name == "sort" and has_sym(slf, 1):
+            slf[:] = self.b_sorted(list(slf), **kwargs)
+            return None
         if not has_sym(args, 2) and not has_sym(kwargs, 2) and not is_sym(slf):
             return getattr(slf, name)(*args, **kwargs)
         if isinstance(slf, list) and name in ("extend", "__iadd__"):
@@ -1152,6 +1251,18 @@ class Models(object):
             return slf.update(*args)
         if name == "__contains__":
             return self.contains(slf, args[0])
+        if isinstance(slf, MSet) and name == "add" and len(args) == 1 and isinstance(args[0], (str, SStr)) and not slf.ranges:
+            x = mkstr(args[0]) if isinstance(args[0], SStr) else args[0]
+            if isinstance(x, str):
+                for y in list(slf.sitems):
+                    if self.interp.truth(self.interp.compare(ast.Eq, x, y), "set-add-eq"):
+                        return None
+                set.add(slf, x)
+                return None
+            if not self.interp.truth(self.contains(slf, x), "set-add-member"):
+                slf.sitems.append(x)
+                self.used("set-of-strings(add/in by branching on equality)")
+            return None
         if isinstance(slf, list) and name == "index":
             for i, x in enumerate(slf):
                 r = self.interp.compare(ast.Eq, x, args[0])
@@ -1192,6 +1303,7 @@ class Models(object):
         t[builtins.enumerate] = self.b_enumerate
         t[builtins.iter] = self.b_iter
         t[builtins.zip] = self.b_zip
+        t[itertools.islice] = self.b_islice
 
     def b_len(self, x):
         if isinstance(x, SStr):
@@ -1199,11 +1311,29 @@ class Models(object):
         if isinstance(x, SSet):
             return SInt(x.card)
         if isinstance(x, SSetStr):
+            # exact: the number of items different from every earlier item
+            terms = []
+            for i, a in enumerate(x.items):
+                neq = []
+                for b in x.items[:i]:
+                    r = self.interp.compare(ast.Eq, a, b)
+                    neq.append(z3.Not(r.e) if isinstance(r, SBool) else z3.BoolVal(not r))
+                terms.append(z3.If(z3.And(*neq), 1, 0) if neq else z3.IntVal(1))
+            return SInt(z3.Sum(*terms) if len(terms) > 1 else (terms[0] if terms else z3.IntVal(0)))
+        if isinstance(x, SSetOfSeq):
+            q = x.seq
             n = self.ctx.fresh_int("card")
-            self.ctx.assume(z3.And(n >= (1 if x.items else 0), n <= len(x.items)))
+            j = z3.Int("j!card")
+            e0, ej = q.elem(z3.IntVal(0)), q.elem(j)
+            t0 = e0.z3() if isinstance(e0, SStr) else z3.StringVal(e0)
+            tj = ej.z3() if isinstance(ej, SStr) else z3.StringVal(ej)
+            alleq = z3.ForAll([j], z3.Implies(z3.And(j >= 0, j < q.length), tj == t0))
+            self.ctx.assume(z3.And(n >= 0, n <= q.length, z3.Implies(q.length >= 1, n >= 1), (n <= 1) == alleq))
             return SInt(n)
         if isinstance(x, SSeq):
             return SInt(x.length)
+        if isinstance(x, MSet) and x.sitems and not x.ranges:
+            return set.__len__(x) + len(x.sitems)
         if isinstance(x, MSet) and x.ranges:
             n = self.ctx.fresh_int("card")
             base = set.__len__(x)
@@ -1356,15 +1486,18 @@ class Models(object):
         else:
             keys = items
         if has_sym(keys):
-            if all(isinstance(k, (SInt, int)) and not isinstance(k, bool) for k in keys):
+            allint = all(isinstance(k, (SInt, int)) and not isinstance(k, bool) for k in keys)
+            allstr = all(isinstance(k, (SStr, str)) for k in keys)
+            if allint or allstr:
                 # stable insertion sort, branching on the comparisons
-                self.used("sorted-stable(symbolic integer keys, branching)")
+                self.used("sorted-stable(symbolic %s keys, branching)" % ("integer" if allint else "string"))
+                zk = (lambda k: _int(k)) if allint else (lambda k: mkstr(k).z3() if isinstance(k, SStr) else z3.StringVal(k))
                 order = []
                 for i in range(len(items)):
                     pos = len(order)
                     for j in range(len(order) - 1, -1, -1):
-                        a, b = _int(keys[order[j]]), _int(keys[i])
-                        before = (a < b) if reverse else (a > b)        # order[j] must come after the new item
+                        a, b = zk(keys[order[j]]), zk(keys[i])
+                        before = (a < b) if reverse else (b < a)        # order[j] must come after the new item
                         if self.ctx.branch(before, "sort-cmp"):
                             pos = j
                         else:
@@ -1382,7 +1515,11 @@ class Models(object):
         if isinstance(it, MSet):
             m = MSet(set.__iter__(it))
             m.ranges = list(it.ranges)
+            m.sitems = list(it.sitems)
             return m
+        if isinstance(it, SSeq) and it.kind == "strlist":
+            self.used("set-of-abstract-string-sequence (cardinality: 0 / 1 <=> all elements equal / several)")
+            return SSetOfSeq(it)
         items = list(self.interp.iterate(it))
         if has_sym(items, 1):
             if all(isinstance(x, (str, SStr)) for x in items):
@@ -1426,6 +1563,41 @@ class Models(object):
         if isinstance(it, SSeq):
             raise Undecided("enumerate over an abstract sequence")
         return enumerate(it, start)
+
+    def b_islice(self, it, *args):
+        """itertools.islice(iterable, stop) / (iterable, start, stop[, step]) with symbolic bounds: the
+        underlying iterator is advanced one item at a time, branching on `index < stop`"""
+        it = self._iterable(it)
+        if isinstance(it, Sym):
+            raise Undecided("islice over an abstract sequence")
+        if len(args) == 1:
+            start, stop, step = 0, args[0], 1
+        else:
+            start, stop, step = (list(args) + [1])[:3]
+            start = 0 if start is None else start
+            step = 1 if step is None else step
+        if isinstance(start, Sym) or isinstance(step, Sym) or step != 1:
+            raise Undecided("islice with symbolic start/step")
+        if not isinstance(stop, Sym):
+            return itertools.islice(self.interp.iterate(it), start, stop, step)
+        interp = self.interp
+        src = interp.iterate(it)
+        zstop = _int(stop)
+
+        def gen():
+            i = 0
+            while True:
+                if i >= start and not interp.truth(SBool(z3.IntVal(i) < zstop), "islice-more"):
+                    return
+                try:
+                    x = next(src)
+                except StopIteration:
+                    return
+                if i >= start:
+                    yield x
+                i += 1
+        self.used("islice(symbolic stop, branching per item)")
+        return gen()
 
     def b_iter(self, it, *a):
         it = self._iterable(it)
